@@ -34,6 +34,29 @@ class Index:
         self.universe = Q.Universe(self.raw["notes"])
         self._sess: dict[int, Any] = {}
 
+    @classmethod
+    def after_history(cls, files: dict[str, str], day: dt.date, edits, tag: str = "ixh") -> "Index":
+        """An index that went through a real history: `db create`, then `edits(zdir)` (a callable
+        that changes the files) and a plain `db reindex`.  The universe is read back from the raw
+        rows afterwards, so what a query must answer is what the NOTES now carry."""
+        ix = cls.__new__(cls)
+        ix.day = day
+        ix.zdir = Z.make_zdir(files, tag)
+        r = Z.db_create(ix.zdir, day)
+        if not Z.cli_ok(r):
+            raise H.HarnessError(f"history corpus did not index cleanly: {r.err[-800:]}")
+        edits(ix.zdir)
+        r = Z.db_reindex(ix.zdir, day)
+        if not Z.cli_ok(r):
+            raise H.HarnessError(f"history corpus did not reindex cleanly: {r.err[-800:]}")
+        ix.raw = IR.read_index(ix.zdir)
+        hard = [p for p in ix.raw["problems"] if not p.startswith("orphan ")]
+        if hard:
+            raise H.HarnessError(f"history corpus index has structural problems: {hard}")
+        ix.universe = Q.Universe(ix.raw["notes"])
+        ix._sess = {}
+        return ix
+
     def session(self) -> Any:
         pid = os.getpid()
         s = self._sess.get(pid)
